@@ -139,10 +139,29 @@ func check64(b *roaring64.Bitmap, want *model.Set) string {
 func set64(t *rapid.T, label string) *model.Set {
 	n := rapid.IntRange(0, 3).Draw(t, label+".nbuckets")
 	out := model.New()
+	tiny := rapid.IntRange(0, 3).Draw(t, label+".tinybuckets") == 0
+	if tiny {
+		// many minimal buckets (one value or one short run each): the smallest legal encodings
+		n = rapid.IntRange(1, 6).Draw(t, label+".ntiny")
+	}
 	for i := 0; i < n; i++ {
 		b := rapid.SampledFrom(buckets).Draw(t, fmt.Sprintf("%s.b%d", label, i))
+		if tiny {
+			b = uint64(i) * 2
+			if rapid.Bool().Draw(t, label+".top") {
+				b = 0xFFFFFFFF - uint64(i)
+			}
+		}
 		var inner *model.Set
-		switch rapid.IntRange(0, 3).Draw(t, fmt.Sprintf("%s.b%d.kind", label, i)) {
+		kind := rapid.IntRange(0, 3).Draw(t, fmt.Sprintf("%s.b%d.kind", label, i))
+		if tiny {
+			inner = model.New()
+			a := rapid.SampledFrom(lows32).Draw(t, label+".ta")
+			inner.AddRange(a, min64(a+uint64(rapid.IntRange(0, 9).Draw(t, label+".tl")), model.Max32))
+			kind = -1
+		}
+		switch kind {
+		case -1:
 		case 0:
 			inner = model.New()
 			k := rapid.IntRange(1, 6).Draw(t, label+".npts")
